@@ -214,9 +214,19 @@ def resolution_and_retarget_cases(ctx):
         got_b = [slot(next(p)) for _ in range(r.randint(1, 5))]
         exp_a = [a[j % len(a)] for j in range(k)]
         exp_b = [b[j % len(b)] for j in range(len(got_b))]
-        ctx.case(("retarget", where, tuple(a), tuple(b), k), nontrivial=True, validated=False,
+        # a rewind after the re-targeting rewinds the NEW target: the reference keeps pointing where it was last pointed
+        rewind = r.choice(["none", "reset", "reset", "all"])
+        if rewind != "none":
+            if rewind == "reset":
+                p.reset()
+            else:
+                p.all(r.randint(1, 6))
+            got_c = [slot(next(p)) for _ in range(r.randint(1, 5))]
+            exp_c = [b[j % len(b)] for j in range(len(got_c))]
+            got_b, exp_b = got_b + ["<%s>" % rewind] + got_c, exp_b + ["<%s>" % rewind] + exp_c
+        ctx.case(("retarget", where, tuple(a), tuple(b), k, rewind), nontrivial=True, validated=False,
                  sample={"retarget": {"where": where, "before": got_a, "after": got_b}} if i < 2 else None)
-        ctx.count("retarget:" + where)
+        ctx.count("retarget:" + where, "retarget:then-" + rewind)
         if got_a != exp_a or got_b != exp_b:
             ctx.violation("C12:pref-retarget:" + where,
                           "PRef %s: before re-targeting %s (expected %s), after set_pattern %s (expected %s)" % (where, got_a, exp_a, got_b, exp_b),
